@@ -52,7 +52,7 @@ INSERTS = [["cols", ["K", "V", "W"], [["s", "K"], ["s", "V"], ["s", "W"]]],
            ["nocols", None, [["s", "K"], ["s", "V"], ["s", "W"]]],
            ["cols", ["K", "W"], [["s", "K"], ["c", "ins"]]],
            ["cols", ["W", "K", "V"], [["s", "W"], ["s", "K"], ["c", 5]]]]
-VARIANTS = ["alias", "noalias", "subquery", "qualified", "lower", "alias_as"]
+VARIANTS = ["alias", "noalias", "subquery", "qualified", "lower", "alias_as", "other_schema", "other_schema_noalias"]
 
 
 def gen_cases(tier: str, seed: int):
@@ -180,7 +180,13 @@ def model_merge(t_rows: list, s_rows: list, clauses: list) -> tuple[list, dict]:
 def merge_sql(case: dict) -> str:
     v = case["variant"]
     tname, sname = ("DB1.S1.TGT", "DB1.S1.SRC") if v == "qualified" else ("TGT", "SRC")
-    if v in ("alias", "lower", "subquery", "qualified"):
+    if v.startswith("other_schema"):
+        tname, sname = "DB1.OTHER.TGT", "SRC"
+    if v == "other_schema_noalias":
+        ta, sa = "DB1.OTHER.TGT", "SRC"
+        into, using = tname, sname
+        v = "noalias-qualified"
+    elif v in ("alias", "lower", "subquery", "qualified", "other_schema"):
         ta, sa = "t", "s"
         into = f"{tname} t"
         using = f"(SELECT * FROM {sname}) s" if v == "subquery" else f"{sname} s"
@@ -200,7 +206,7 @@ def merge_sql(case: dict) -> str:
                 sets = []
                 for col, kind, val in cl[3]:
                     rhs = f"{sa}.{val}" if kind == "s" else _lit(val) if kind == "c" else f"{ta}.{col} + {val}"
-                    sets.append(f"{ta}.{col} = {rhs}" if v != "noalias" else f"{col} = {rhs}")
+                    sets.append(f"{ta}.{col} = {rhs}" if v not in ("noalias", "noalias-qualified") else f"{col} = {rhs}")
                 parts.append(head + "UPDATE SET " + ", ".join(sets))
         else:
             _, cols, vals = cl[3]
@@ -231,6 +237,7 @@ _state: dict[str, Any] = {}
 def setup_worker(env: core.Env) -> None:
     fs = core.new_fs()
     conn = fs.connect("db1", "s1")
+    conn.cursor().execute("CREATE SCHEMA OTHER")
     _state.update(fs=fs, conn=conn, raw=core.raw_root(fs).cursor())
 
 
@@ -248,8 +255,14 @@ def run_case(case: dict, env: core.Env) -> None:
     cur.execute(f"CREATE OR REPLACE TABLE TGT (K INT, V INT, W VARCHAR{' NOT NULL' if case.get('notnull') else ''})")
     cur.execute("CREATE OR REPLACE TABLE SRC (K INT, V INT, W VARCHAR, FLAG INT)")
     cur.execute("CREATE OR REPLACE TABLE BYST (K INT, V INT, W VARCHAR)")
+    other_schema = case["variant"].startswith("other_schema")
+    tgt_fq = "DB1.OTHER.TGT" if other_schema else "DB1.S1.TGT"
+    if other_schema:
+        # the real target lives in another schema; the current schema holds a decoy of the same name
+        cur.execute(f"CREATE OR REPLACE TABLE DB1.OTHER.TGT (K INT, V INT, W VARCHAR{' NOT NULL' if case.get('notnull') else ''})")
+        cur.execute("INSERT INTO TGT VALUES (777, 7, 'decoy')")
     if case["t"]:
-        cur.execute(f"INSERT INTO TGT VALUES {_vals(case['t'])}")
+        cur.execute(f"INSERT INTO {tgt_fq} VALUES {_vals(case['t'])}")
         cur.execute(f"INSERT INTO BYST VALUES {_vals(case['t'])}")
     if case["s"]:
         cur.execute(f"INSERT INTO SRC VALUES {_vals(case['s'])}")
@@ -272,7 +285,8 @@ def run_case(case: dict, env: core.Env) -> None:
 
     def read(tbl: str, via: Any = None) -> Counter:
         c = via or raw
-        return Counter(tuple(x) for x in c.execute(f"select K, V, W from DB1.S1.{tbl}").fetchall())
+        fq = tgt_fq if tbl == "TGT" else f"DB1.S1.{tbl}"
+        return Counter(tuple(x) for x in c.execute(f"select K, V, W from {fq}").fetchall())
 
     own = core.raw_of(conn)
     must_fail = bool(case.get("notnull")) and exp_counts["inserted"] > 0
@@ -321,6 +335,10 @@ def run_case(case: dict, env: core.Env) -> None:
         want_names = [f"number of rows {n}" for n in names]
         if d["names"] != want_names:
             env.witness("C12/status-columns", f"{d['names']} expected {want_names}")
+    if other_schema:
+        decoy = Counter(tuple(x) for x in own.execute("select K, V, W from DB1.S1.TGT").fetchall())
+        if decoy != Counter([(777, 7, "decoy")]):
+            env.witness("C12/same-named-table-in-current-schema-changed", f"{sql}: decoy DB1.S1.TGT now {dict(decoy)}")
     # ---- source and bystander untouched
     env.count("cmp_source_unchanged")
     gs = Counter(tuple(x) for x in own.execute("select K, V, W, FLAG from DB1.S1.SRC").fetchall())
